@@ -696,6 +696,7 @@ Definition mstep0 (m : mst) (ev : sx) : mst :=
   | L [I 26; I g; cks; I to; deps] =>
       set_aux m (aset (aset (m_aux m) (fkey 1 g) cks) (fkey 3 g) (L [I to; deps]))
   | L [I 33; I dflt] => fset m 21 0 dflt
+  | L [I 34; I tid; I code] => add_viol m 17 code tid
   | L [I 27; I ins; vars] => set_aux m (aset (m_aux m) (fkey 2 ins) vars)
   | L [I 28] => add_viol m 20 9 0
   | _ => m
